@@ -3,6 +3,8 @@ import Driver.C12
 import Pcore.Model.LoaderConc
 import Pcore.Model.Lockset
 import Pcore.Generated.Locksets
+import Pcore.Model.LazyCache
+import Pcore.Generated.CacheSites
 /-! Driver op for C13: `sched (tree NODE*) (threads (th STEP*)…) (sched T*)` — syntax and output in harness/c13/c13.go. -/
 namespace C13
 open Sx Pcore.LoaderSeq Pcore.LoaderConc
@@ -29,8 +31,55 @@ def lockrace : String :=
   | some (a, none) => "undisciplined: " ++ accStr a
   | some (a, some b) => "race: " ++ accStr a ++ " || " ++ accStr b
 
+/-! `cache (val VAL) (threads (th OP*)…) (sched T*)` — harness/c13/cache.go -/
+open Pcore.LazyCache in
+def scalarOK : Sexp → Bool
+  | .list [.atom "i", n] => n.int?.isSome
+  | .list [.atom "s", x] => x.bytes?.isSome
+  | _ => false
+
+open Pcore.LazyCache in
+/-- kind and size of the shared value; `none` = malformed (as the harness decides) -/
+def valOf : Sexp → Option (Kind × Nat)
+  | .list (.atom "a" :: es) => if es.all scalarOK then some (.arr, es.length) else none
+  | .list (.atom "h" :: kvs) => do
+    let ks ← kvs.mapM fun kv => match kv with
+      | .list [k, v] => if scalarOK k && scalarOK v && toString k != "(s x)" then some k else none
+      | _ => none
+    let texts := ks.map toString
+    if texts.eraseDups.length != texts.length then none
+    else
+      let mixed := ks.any fun k => match k with | .list (.atom "i" :: _) => true | _ => false
+      some (if mixed then .hshMixed else .hshStr, ks.length)
+  | _ => none
+
+open Pcore.LazyCache in
+def copOf : Sexp → Option COp
+  | .atom "ptype" => some .ptype
+  | .atom "dtype" => some .dtype
+  | .atom "str" => some .str
+  | _ => none
+
+open Pcore.LazyCache in
+def obsStr : Obs → String
+  | .full => "full" | .half => "half" | .fault => "fault"
+
+open Pcore.LazyCache in
+def cacheExec (v : Sexp) (ths sch : List Sexp) : String :=
+  match valOf v, ths.mapM (fun t => match t with
+      | .list (.atom "th" :: ops) => ops.mapM copOf
+      | _ => none), sch.mapM Sexp.nat? with
+  | some (kind, size), some (p :: progs), some sched =>
+    let c := execute (Cfg.ofTable Pcore.Generated.cacheSites) kind size (p :: progs) sched
+    let rec go (i : Nat) : List Pcore.LazyCache.Thread → List String
+      | [] => []
+      | t :: r => s!"{i}:[{" ; ".intercalate (t.log.map obsStr)}]" :: go (i + 1) r
+    " ".intercalate (go 0 c.th)
+  | _, _, _ => "bad-op"
+
 def exec : List Sexp → String
   | [.atom "lockrace"] => lockrace
+  | [.atom "cache", .list [.atom "val", v], .list (.atom "threads" :: ths), .list (.atom "sched" :: sch)] => cacheExec v ths sch
   | [.atom "sched", .list (.atom "tree" :: nodes), .list (.atom "threads" :: ths), .list (.atom "sched" :: sch)] =>
     match C12.treeOf nodes with
     | none => "bad-op"
